@@ -40,7 +40,7 @@ PROPS = {
         suites=[100],
         design_ref="DESIGN.md section 5, C10",
         rule=("suite 100: 2500 (thorough 60000) first exchanges and short transfers with the budget aimed at bands around overhead + 12 + 2^k, overhead + 28 .. +35, 1277..1280 and random values; overhead varied through token length 0..8, path length 0..100, Uri-Query options and four application option sets; client szx 0..7 or none; uploads with szx 0..6; 400 (thorough 6000) uploads whose final block also names a Block2 size for a large reply; 400 (thorough 6000) single-block uploads at size exponents 2..7; "
-              "verdict: inside the property's domain (overhead + 28 <= M <= 1280, no Block2 set by the application) every handler-produced message encodes within M, every chosen size is a power of two in 16..1024, not above the client's, exactly the client's when the message overhead + that size + 32 fits the budget, and an acknowledged upload size + request overhead + 12 is within the budget; outside only 'no panic'; class 1 in / 2 outside the domain; distinct = distinct input Also: error-class (4.xx / 5.xx) and 2.31 application replies."),
+              "verdict: inside the property's domain (overhead + 28 <= M <= 1280, no Block2 set by the application) every handler-produced message encodes within M, every chosen size is a power of two in 16..1024, not above the client's, exactly the client's when the message overhead + that size + 32 fits the budget, and an acknowledged upload size + request overhead + 12 is within the budget; outside only 'no panic'; class 1 in / 2 outside the domain; distinct = distinct input Also: error-class (4.xx / 5.xx) and 2.31 application replies. A slow resource: the request (naming a block size) is seen, 1..1100 (thorough 2000) exchanges on other keys complete, then its application answers (split exchange)."),
         level_text=("Theorem C10_chosen_size: for every budget with overhead + 28 <= M <= 1280, whenever negotiate returns a block it has size 2^(k+4), k <= 6, at most M - overhead - 12 (room for the block plus the 12-byte block-option allowance), never above the client's size, and exactly the client's when that fits with 32 bytes to spare. C10_overhead_measured (the size the handler measures is the RFC wire length), C10_insertion (inserting one option with number <= 268 and a value of <= 12 bytes into any ascending option sequence "
                     "lengthens the wire image by at most 2 + its length: the successor's delta only shrinks), C10_fragment_fits (for every well-formed application response without Block2 and every budget in the domain, the first fragment the handler builds -- options + Block2 + marker + chunk -- has wire length <= M and payload <= the chosen size)."),
         level_note=COMMON_BLOCK_NOTE + " C10_fragment_fits is proved for the first fragment of a response (intercept_response); follow-up fragments from the cache and Block1 answers are decided by the suite's length oracle on every produced message.",
@@ -61,7 +61,7 @@ PROPS = {
         suites=[120],
         design_ref="DESIGN.md section 5, C12",
         rule=("suite 120: 7 sets of 2-3 transfers whose keys differ in exactly one of endpoint / method / path (segments [a,b] vs [a/b], prefix paths, empty path, trailing empty segment), uploads and downloads mixed, 3-5 exchanges each; all interleavings enumerated (quick: a stride of up to 60 per set and round; thorough: up to 4000); "
-              "the implementation is run interleaved and each transfer alone; verdict: per-transfer observation lists are equal (responses, results, cached state), and every response carries the message id and token of its request; class = number of transfers; distinct = distinct input Also: tokens changing length inside a transfer (the reply's token-length nibble is part of 'correlated'); pairs of ordinary path names that collide under 32-bit FNV-1a."),
+              "the implementation is run interleaved and each transfer alone; verdict: per-transfer observation lists are equal (responses, results, cached state), and every response carries the message id and token of its request; class = number of transfers; distinct = distinct input Also: tokens changing length inside a transfer (the reply's token-length nibble is part of 'correlated'); pairs of ordinary path names that collide under 32-bit FNV-1a. Every keyset also with each exchange split in two (request seen / application answers) and the halves of different transfers nested."),
         level_text=("Theorems: C12_key_injective / C12_key_path (the cache key separates exactly method, path segment list and requester), C12_intercept_request_is_access / C12_intercept_response_is_access (the entry points are accesses of a per-key machine over the expiring map), "
                     "C12_noninterference (for EVERY interleaving of any number of transfers of any length, with non-decreasing times: what key k's transfers observe equals what they observe alone -- induction over the event list with the frame lemma of the expiring map), C12_correlation (blocks served from the cache keep the message id and token prepared for the current request)."),
         level_note=COMMON_BLOCK_NOTE + " Methods outside 0.01-0.07 share one key byte and non-UTF-8 paths collapse to the empty path (documented by C12_key_injective's statement through get_method / get_path_as_vec).",
